@@ -925,6 +925,24 @@ func (t *FnTrans) ghostAt(where string) {
 			t.ghostHit[g] = true
 			env := t.selfEnv(t.cur, t.entry)
 			env.local = func(name string) (SVal, bool) { return t.localHere(name) }
+			if t.lastCallRes != nil {
+				// "ghost after call X": result names the value the call returned (result.0, ... for tuples: r0, r1)
+				if v, ok := t.vals[t.lastCallRes]; ok {
+					if len(v.Tup) > 0 {
+						if tup, isT := t.resolve(t.lastCallRes.Type()).(*types.Tuple); isT {
+							for i, tv := range v.Tup {
+								if i < tup.Len() {
+									T := t.resolve(tup.At(i).Type())
+									env.vars[fmt.Sprintf("r%d", i)] = SVal{S: tv.S, T: T, Sort: t.sortOf(T)}
+								}
+							}
+						}
+					} else if v.S != "" {
+						T := t.resolve(t.lastCallRes.Type())
+						env.vars["result"] = SVal{S: v.S, T: T, Sort: t.sortOf(T)}
+					}
+				}
+			}
 			t.ghostUpdate(g, env)
 		}
 	}
@@ -1066,6 +1084,10 @@ func (t *FnTrans) twoPhaseCheck() {
 	if t.ct == nil || t.ct.Opts["twophase"] == "" {
 		return
 	}
+	only := t.ct.Opts["twophase"] // "opt twophase <lockfield>": only that lock
+	if only == "true" {
+		only = ""
+	}
 	reach := func(a, b ssa.Instruction) bool { // can b execute after a?
 		ba, bb := a.Block(), b.Block()
 		idx := func(in ssa.Instruction) int {
@@ -1100,6 +1122,9 @@ func (t *FnTrans) twoPhaseCheck() {
 	bad := ""
 	for _, r := range t.tpEvents {
 		if !r.rel {
+			continue
+		}
+		if only != "" && !strings.HasSuffix(r.comp, "."+only) {
 			continue
 		}
 		for _, a := range t.tpEvents {
